@@ -429,6 +429,9 @@ SEEDS = [
     [['fork', 'f0'], ['cell', 'c0', 'AND2'], ['cell', 'c2', 'OR2'], ['line', ['f', 'f0'], ['c', 'c0']], ['line', ['f', 'f0'], ['c', 'c2']], ['line', ['f', 'f0'], ['c', 'c0']]],
     [['cell', 'c0', 'AND2'], ['fork', 'f0'], ['fork', 'f1'], ['line', ['c', 'c0'], ['f', 'f0']], ['line', ['f', 'f0'], ['f', 'f1']], ['cell', 'c2', 'OR2'], ['line', ['f', 'f1'], ['c', 'c2']]],
     [['cell', 'c1', 'dff'], ['cell', 'c0', 'AND2'], ['xline', ['c', 'c1'], 1, ['c', 'c0'], 1], ['fork', 'f0'], ['line', ['c', 'c0'], ['f', 'f0']], ['io_append', ['f', 'f0']]],
+    # cells and forks have separate name spaces: a cell and the fork it drives carry the same name (what every parser produces)
+    [['cell', 'c0', 'AND2'], ['fork', 'c0'], ['line', ['c', 'c0'], ['f', 'c0']], ['cell', 'c1', 'OR2'], ['line', ['f', 'c0'], ['c', 'c1']], ['io_append', ['c', 'c0']]],
+    [['fork', 'c1'], ['cell', 'c1', 'input'], ['line', ['c', 'c1'], ['f', 'c1']], ['cell', 'c0', 'AND2'], ['line', ['f', 'c1'], ['c', 'c0']], ['line', ['f', 'c1'], ['c', 'c0']], ['io_append', ['c', 'c1']]],
 ]
 
 
@@ -466,7 +469,7 @@ def tasks(tier, seed):
         frontier += broken
         t += [('sub', cfg['nf'], cfg['nc'], cfg['depth'], h) for h in frontier]
         t.append(('top', cfg['nf'], cfg['nc'], cfg['split']))
-    for s in SEEDS[: (4 if tier == 'thorough' else 3)]:
+    for s in (SEEDS if tier == 'thorough' else SEEDS[:3] + SEEDS[4:]):
         t.append(('sub', 3, 3, len(s) + cfgs[0]['seed_depth'], s))
     return t
 
